@@ -32,6 +32,8 @@ pub struct Ctx<'a> {
 
 impl Ctx<'_> {
     pub fn fail(&mut self, prop: &str, what: String) {
+        // one line per failure in oracle.txt: panic messages and debug output may contain line breaks and tabs
+        let what: String = what.chars().map(|c| if c == '\n' || c == '\r' || c == '\t' { ' ' } else { c }).collect();
         self.rep.oracle.push((self.case, self.line, prop.to_string(), what));
     }
     pub fn count(&mut self, key: &str) {
@@ -142,6 +144,7 @@ pub fn run_ops_opt(lines: &[String], store: bool) -> Report {
                             let mut cx = Ctx { rep: &mut rep, case, line: ln, nontriv: &mut nontriv };
                             cx.fail("ANY", format!("`{}` panicked where no panic is specified: {}", line.trim(), m));
                             out = Some("uncaught-panic".to_string());
+                            let _ = &m;
                             break;
                         }
                     }
